@@ -67,6 +67,9 @@ type Knobs struct {
 	StdinChunk     int    `json:"stdin_chunk,omitempty"` // 0 = as much as fits; >0 fixed; <0 random 1..-n
 	FileChunk      int    `json:"file_chunk,omitempty"`  // same for regular-file reads
 	ShuffleReaddir bool   `json:"shuffle_readdir,omitempty"`
+	// StdinBlocks: standard input never reaches end of file (a terminal, a pipe
+	// nobody closes); a read beyond the supplied bytes blocks for good.
+	StdinBlocks bool `json:"stdin_blocks,omitempty"`
 	// MaxOpenFiles is the descriptor limit of the simulated process (RLIMIT_NOFILE
 	// minus the three streams); 0 = unlimited. open fails with EMFILE when that
 	// many handles are open and not yet closed.
